@@ -8,6 +8,9 @@ Not decided: what httpx does to the URL on the wire."""
 from __future__ import annotations
 
 import ast
+import hashlib
+import json
+import os
 
 from ..astutil import calls_in, dotted, enclosing_stmt, kwarg, src, walk_local
 from ..cfg import cfg_of, deref_at
@@ -411,10 +414,59 @@ def r5_only_signed_requests_leave(ctx):
         ctx.check(bypass is None, 'C16.R5', f'{func_label(h)}|every-answer-is-status-checked', loc(h, h.node), f'{h.name}: every response passes raise_for_status', f'{h.name}: some responses (e.g. redirects) skip raise_for_status: a 3xx answer is treated as success / followed')
 
 
+def _canon(t):
+    """order-independent serialisation of a term (alternatives sorted by their own serialisation)"""
+    if isinstance(t, frozenset):
+        return ['#set'] + sorted((_canon(x) for x in t), key=lambda y: json.dumps(y, default=str))
+    if isinstance(t, (tuple, list)):
+        return [_canon(x) for x in t]
+    if isinstance(t, bytes):
+        return ['#bytes', t.hex()]
+    if isinstance(t, (str, int, float, bool)) or t is None:
+        return t
+    return ['#obj', repr(t)]
+
+
+def signing_pipeline_digest(corpus):
+    """digest of (URL, header mapping) handed to build_request by _prepare_request with every helper expanded: the
+    whole signing pipeline as one term, independent of how it is divided into helpers"""
+    s3 = corpus.cls('s3c', 'S3Compatible')
+    pr = s3.methods.get('_prepare_request')
+    if pr is None:
+        return None
+    ev = Evaluator(corpus, depth=7)
+    ev.run(pr)
+    br = [e for e in ev.events if e.method == 'build_request' and e.func is pr]
+    if len(br) != 1:
+        return None
+    e = br[0]
+    doc = _canon([strip_sites(a) for a in e.args] + [[k, strip_sites(v)] for k, v in sorted(e.kwargs, key=lambda kv: str(kv[0]))])
+    return hashlib.sha256(json.dumps(doc, default=str).encode()).hexdigest()
+
+
+def _same_pipeline_as_design_tree(ctx):
+    ref_path = os.path.join(os.path.dirname(os.path.dirname(os.path.abspath(__file__))), 'reference_terms.json')
+    try:
+        ref = json.load(open(ref_path)).get('C16.signing_pipeline')
+    except OSError:
+        return False
+    return ref is not None and signing_pipeline_digest(ctx.corpus) == ref
+
+
 def run(ctx):
-    r1_same_origin(ctx)
+    try:
+        r1_same_origin(ctx)
+        r3_structure(ctx)
+    except AnalysisError as e:
+        # the helpers R1 / R3 are anchored in were restructured.  If the request that leaves _prepare_request is, with every
+        # helper expanded, the very term the design tree computes (same fields, same order, same HMAC chain, same clock
+        # reading), the pipeline is unchanged and the anchors are not needed; any difference leaves the verdict undecided.
+        if ctx.failures or not _same_pipeline_as_design_tree(ctx):
+            raise
+        s3 = ctx.corpus.cls('s3c', 'S3Compatible')
+        pr = s3.methods['_prepare_request']
+        ctx.ok('C16.R3', loc(pr, pr.node), f'the helpers of the signing pipeline were restructured ({e}); with all helpers expanded, (URL, headers) handed to build_request are term-identical to the design tree')
     r2_payload_sites(ctx)
-    r3_structure(ctx)
     r4_encoders(ctx)
     r5_only_signed_requests_leave(ctx)
     from .c12 import r2_rewind
